@@ -1,9 +1,11 @@
 //! group `mac`: C20 (literal macros).  `/repo/macros/src/parse/` — the whole expansion logic of the
 //! proc-macro crate except the thin `#[proc_macro]` wrappers of `macros/src/lib.rs` — is compiled
 //! into this binary by path, so the expansion functions can be called at run time.
-#[allow(dead_code, unused_imports)]
-#[path = "/repo/macros/src/parse/mod.rs"]
-mod parse;
+// the location of the repository is written into src/gen/mac_parse.rs by the check (`pre_build`), so
+// that a trial against a scratch copy of the repository compiles *that* copy's macro sources
+#[path = "../gen/mac_parse.rs"]
+mod mac_parse;
+use mac_parse::parse;
 #[path = "../ops_mac.rs"]
 mod ops_mac;
 
